@@ -22,6 +22,7 @@ from typing import Any, Dict, List, Optional, Tuple
 
 import cli_gen as cg
 import cliside as cs
+import lexstage
 import pyside
 from vlib import Broken, Check, cnat, run_workers
 
@@ -355,3 +356,4 @@ def run(ck: Check) -> None:
         "lint applies to the definitions bound to the linted file only (imports are not linted): stated in the model, "
         "checked on every run",
     ]
+    lexstage.lex_stage(ck, "C20_lex.v", 1, 8, "C20")    # text level: the tokenizer (tools/lexstage.py)
